@@ -29,6 +29,7 @@ import (
 	"sort"
 	"strings"
 	"sync"
+	"sync/atomic"
 	"time"
 
 	"perkeep.org/pkg/blob"
@@ -41,11 +42,6 @@ import (
 )
 
 func main() {
-	if os.Getenv("VERIF_C04_PROBE") != "" {
-		log.SetOutput(io.Discard)
-		probe()
-		return
-	}
 	ev.Main("C04", "fault_enumeration",
 		"files (single-zip, multi-zip via forced max zip size, periodic content with repeated chunk refs, same content under two names, just under/over the 512 KiB threshold) are written with perkeep's file writer and uploaded through blobserver.Receive in seeded orders (schema blob first/middle/last, chunks shuffled, duplicate uploads) into blobpacked over inject-wrapped memory small/large/meta; every lower-layer call index k of upload+packing is a crash point (freeze), every distinct (durable state, acked set) is restarted under none/fast/full recovery and with meta wiped, audited against the reference map, then removes + restart + re-upload + restart; a case is distinct per (history, crash state, recovery)",
 		run)
@@ -171,6 +167,7 @@ func (c *caseCtx) execute(freezeAt int64, live func(inst *instance, call inject.
 	res = &execResult{acked: map[int]bool{}, inflight: -1, lw: lw}
 	cur := -1
 	curOp := -1
+	runaway := inst.guardRunaway(c.w)
 	if live != nil {
 		inst.plan.After = func(call inject.Call) {
 			inst.auditing.Store(true)
@@ -194,6 +191,10 @@ func (c *caseCtx) execute(freezeAt int64, live func(inst *instance, call inject.
 		})
 		if !ok {
 			return nil, nil, fmt.Errorf("hang: receive of %v (op %d) did not return within 300s", b.Ref, oi)
+		}
+		if n := runaway.Load(); n > 0 {
+			lw.release()
+			return nil, nil, fmt.Errorf("runaway: the pack triggered by the upload of %v (op %d) stored %d zips for a file of %d chunks and was still going (stopped by the harness)", b.Ref, oi, n, c.w.maxChunks())
 		}
 		if rerr == nil {
 			res.acked[op.Blob] = true
@@ -220,6 +221,36 @@ func (c *caseCtx) execute(freezeAt int64, live func(inst *instance, call inject.
 		res.log[i].Index -= base
 	}
 	return res, opStart, nil
+}
+
+// guardRunaway bounds the progress of a pack logically: a pack stores at most one zip per
+// data chunk.  When one upload has stored more zips than the file has chunks, the incarnation
+// is frozen (which ends the pack) and the count is reported.
+func (in *instance) guardRunaway(w *world) *atomic.Int64 {
+	var stored, runaway atomic.Int64
+	limit := int64(w.maxChunks() + 2)
+	in.plan.Yield = func(c inject.Call) {
+		switch {
+		case c.Layer == "large" && c.Op == "ReceiveBlob":
+			if n := stored.Add(1); n > limit {
+				runaway.Store(n)
+				in.plan.FreezeNow()
+			}
+		case c.Layer == "small" && c.Op == "ReceiveBlob":
+			stored.Store(0) // a new upload
+		}
+	}
+	return &runaway
+}
+
+func (w *world) maxChunks() int {
+	n := 0
+	for _, f := range w.Files {
+		if len(f.Chunks) > n {
+			n = len(f.Chunks)
+		}
+	}
+	return n
 }
 
 func (c *caseCtx) addState(res *execResult, k int64) error {
@@ -322,6 +353,8 @@ func (c *caseCtx) runA() {
 		c.failed = true
 		if strings.HasPrefix(err.Error(), "hang:") {
 			r.Violation("hang/no-fault-run", fmt.Sprintf("[%s] %v", w.Spec.ID, err), caseReplay(c, nil))
+		} else if strings.HasPrefix(err.Error(), "runaway:") {
+			r.Violation("pack-runaway/no-fault-run", fmt.Sprintf("[%s] %v", w.Spec.ID, err), caseReplay(c, nil))
 		} else {
 			r.Violation("op-error/no-fault-run", fmt.Sprintf("[%s] %v", w.Spec.ID, err), caseReplay(c, nil))
 		}
@@ -366,6 +399,9 @@ func (c *caseCtx) runA() {
 		if !wholeDone[f0.WholeRef] {
 			r.Note("file_class", "pack-without-whole-row")
 		}
+		if truncations(w, c.logA, opStart) > 0 {
+			r.Note("file_class", "truncate-retry")
+		}
 	}
 	if w.DupStart >= 0 && c.zipsA > 0 {
 		after := refsOf(res.lw.large)
@@ -401,6 +437,8 @@ func (c *caseCtx) crashRun(k int64) {
 	if err != nil {
 		if strings.HasPrefix(err.Error(), "hang:") {
 			r.Violation("hang/crash-run/"+c.labels[k], fmt.Sprintf("[%s k=%d] %v", c.w.Spec.ID, k, err), rp)
+		} else if strings.HasPrefix(err.Error(), "runaway:") {
+			r.Violation("pack-runaway/crash-run/"+c.labels[k], fmt.Sprintf("[%s k=%d] %v", c.w.Spec.ID, k, err), rp)
 		} else {
 			r.Inconclusive(fmt.Sprintf("%s k=%d: %v", c.w.Spec.ID, k, err))
 		}
@@ -611,10 +649,21 @@ func (c *caseCtx) auditState(st *stateEntry, variant string, deep bool) {
 
 	// stage 4: the client uploads everything again
 	s.Stage = "resumed"
+	inst.auditing.Store(false)
+	runaway := inst.guardRunaway(w)
+	ck3.Tolerate = false
 	for _, op := range w.Ops {
 		ck3.Receive(w.Universe[op.Blob])
 		delete(removed3, w.Universe[op.Blob].Ref)
+		if n := runaway.Load(); n > 0 {
+			s.viol("pack-runaway/"+s.tail(), fmt.Sprintf("the pack triggered by re-uploading %v stored %d zips for a file of %d chunks and was still going (stopped by the harness)", w.Universe[op.Blob].Ref, n, w.maxChunks()))
+			inst.close()
+			return
+		}
 	}
+	inst.plan.Yield = nil
+	inst.auditing.Store(true)
+	inst.plan.ResetLog()
 	s.zipAudit()
 	s.clientAudit(ck3, rng, st.wholeRows)
 	inst.close()
@@ -689,6 +738,14 @@ func genCases(r *ev.Run) []caseSpec {
 			fileSpec{Name: n1, Size: sz, Content: "random"},
 			fileSpec{Name: fmt.Sprintf("dup%d-b-with-a-longer-name.bin", i), Content: "as:" + n1})
 	}
+	for i := 0; i < 2; i++ { // the size estimate fails: truncate-and-retry
+		add("truncate-retry", 1<<20, orders[i%3], fileSpec{Name: fmt.Sprintf("trunc%d.bin", i), Size: 1300*kib + rng.Intn(900*kib), Content: "random"})
+		out[len(out)-1].TruncSearch = "any"
+	}
+	for i := 0; i < 4; i++ { // ... with repeated chunks
+		add("truncate-retry", 500*kib+rng.Intn(600*kib), orders[(i+1)%3], fileSpec{Name: fmt.Sprintf("ptrunc%d.bin", i), Size: 1300*kib + rng.Intn(1200*kib), Content: "periodic", Period: 66*kib + rng.Intn(400*kib)})
+		out[len(out)-1].TruncSearch = "any"
+	}
 	for i := 0; i < 4; i++ { // single zips of assorted sizes
 		add("single-zip", 0, orders[(i+2)%3], fileSpec{Name: fmt.Sprintf("one%d.bin", i), Size: 700*kib + rng.Intn(1500*kib), Content: "random"})
 	}
@@ -740,6 +797,9 @@ func run(r *ev.Run) {
 				c.limit = cs.MaxZip
 			}
 			c.zc.limit = c.limit
+			if cs.TruncSearch != "" {
+				c.searchTrunc()
+			}
 			c.runA()
 			if c.failed {
 				return
@@ -806,7 +866,7 @@ func run(r *ev.Run) {
 
 	r.Require("file_class", "single-zip", "multi-zip", "repeated-chunks", "duplicate-file", "under-threshold", "just-over-threshold")
 	if r.Thorough() {
-		r.Require("file_class", "three-or-more-zips")
+		r.Require("file_class", "three-or-more-zips", "truncate-retry")
 	}
 	r.Require("recovery", "none", "fast", "full", "zips-alone-fast", "zips-alone-full")
 	r.Require("recovery_with_zips", "none", "fast", "full", "zips-alone-fast", "zips-alone-full")
@@ -817,4 +877,117 @@ func run(r *ev.Run) {
 	if os.Getenv("VERIF_ONLY") != "" {
 		r.Assume("VERIF_ONLY replay: coverage requirements are not meaningful for a single case")
 	}
+}
+
+// ------------------------------------------------------------------ truncate-and-retry
+
+// truncations counts, from the lower-call log of one upload history, how many chunk reads of
+// the final pack exceed the two reads per occurrence (one for the whole-file hash, one for
+// the zip) that a pack without truncate-and-retry needs.
+func truncations(w *world, log []inject.Call, opStart []int64) int {
+	f := w.Files[0]
+	occ := map[string]int{}
+	for _, c := range f.Chunks {
+		occ[c.Ref.String()]++
+	}
+	last := -1 // last upload of the file schema blob
+	for oi, op := range w.Ops {
+		if w.Universe[op.Blob].Ref == f.FileRef && oi < len(opStart) {
+			last = oi
+		}
+	}
+	if last < 0 {
+		return 0
+	}
+	lo, hi := opStart[last], int64(len(log))
+	if last+1 < len(opStart) {
+		hi = opStart[last+1]
+	}
+	got := map[string]int{}
+	for _, c := range log[lo:hi] {
+		if (c.Layer == "small" && c.Op == "Fetch") || (c.Layer == "large" && c.Op == "SubFetch") {
+			got[c.Arg]++
+		}
+	}
+	extra := 0
+	for ref, n := range occ {
+		if got[ref] > 2*n {
+			extra += got[ref] - 2*n
+		}
+	}
+	return extra
+}
+
+// searchTrunc looks for a maximum zip size at which the packer's size estimate accepts a
+// chunk set whose real zip is too large (so that the truncate-and-retry path runs), by
+// trying sizes just below the sizes of the zips a first pack produced.  The case continues
+// with the first such size.  A pack that does not terminate is reported.
+func (c *caseCtx) searchTrunc() {
+	r, w := c.r, c.w
+	try := func(mz int) (sizes []int, trunc int, err error) {
+		w2 := *w
+		w2.Spec.MaxZip = mz
+		c2 := &caseCtx{r: r, w: &w2, limit: mz, states: map[string]*stateEntry{}}
+		res, opStart, err := c2.execute(-1, nil)
+		if err != nil {
+			return nil, 0, err
+		}
+		defer res.lw.release()
+		type ps struct{ part, size int }
+		var parts []ps
+		for _, zr := range refsOf(res.lw.large) {
+			d, _ := res.lw.large.BlobContents(zr)
+			if zi := validateZip(w, zr, []byte(d), blobSizeLimit); zi.parsed {
+				parts = append(parts, ps{zi.Part, len(d)})
+			}
+		}
+		sort.Slice(parts, func(i, j int) bool { return parts[i].part < parts[j].part })
+		for _, p := range parts {
+			sizes = append(sizes, p.size)
+		}
+		return sizes, truncations(&w2, res.log, opStart), nil
+	}
+	start := w.Spec.MaxZip
+	sizes, _, err := try(start)
+	if err != nil {
+		r.Inconclusive(fmt.Sprintf("%s: truncate search: %v", w.Spec.ID, err))
+		return
+	}
+	if w.Spec.TruncSearch == "part0" && len(sizes) > 1 {
+		sizes = sizes[:1]
+	}
+	chosen, tries, reported := 0, 0, false
+	for _, z := range sizes {
+		for _, d := range []int{1, 40, 120, 250, 400, 700} {
+			mz := z - d
+			if mz < 300<<10 {
+				continue
+			}
+			tries++
+			_, tr, err := try(mz)
+			switch {
+			case err != nil && strings.HasPrefix(err.Error(), "runaway:"):
+				r.Note("trunc_search", "runaway")
+				if !reported {
+					reported = true
+					r.Violation("pack-runaway/truncate-retry", fmt.Sprintf("[%s max zip size %d] %v", w.Spec.ID, mz, err),
+						caseReplay(c, map[string]any{"max_zip_used": mz}))
+				}
+			case err != nil:
+				r.Inconclusive(fmt.Sprintf("%s: truncate search at %d: %v", w.Spec.ID, mz, err))
+				return
+			case tr > 0 && chosen == 0:
+				chosen = mz
+			}
+		}
+	}
+	r.Count("trunc_search_packs", tries+1)
+	if chosen == 0 {
+		r.Note("trunc_search", "no-size-found")
+		return
+	}
+	r.Note("trunc_search", "found")
+	w.Spec.MaxZip = chosen
+	c.limit = chosen
+	c.zc.limit = chosen
 }
